@@ -386,6 +386,16 @@ def r5(F, R):
     for bb, t in checks:
         v = b.value(t["args"][0])
         checked |= {n[2] for n in vt_walk(v) if n[0] == "arg"}
+    # a check written as a later helper (inlined): a function whose body tests every element with is_finite (possibly together with more)
+    for bi_, blk_ in enumerate(b.blocks):
+        t_ = blk_["term"]
+        if t_.get("inlined_call") and t_.get("inlined_args"):
+            hb_ = F.any_body(t_["inlined_call"])
+            if hb_ is not None and hb_.hir and str(hb_.r.get("output")) == "bool" and \
+               any(x.get("k") == "MethodCall" and x.get("method") == "is_finite" for x in hir_walk(hb_.hir["value"])):
+                v = b.value(t_["inlined_args"][0])
+                checked |= {n[2] for n in vt_walk(v) if n[0] == "arg"}
+                checks.append((bi_, t_))
     writers = [(bb, t) for bb, t in b.calls() if t["callee"].get("name") in ("set_transform",) or path_ends(t["callee"].get("path", ""), "InnerMatrix::new")]
     need = {b.local_name(i) for i in range(1, b.arg_count + 1) if b.local_ty(i).startswith(("faer::Col<f64", "faer::Mat<f64", "faer::col::", "faer::mat::")) or
             "Col<f64>" in b.local_ty(i) or "Mat<f64>" in b.local_ty(i)}
